@@ -225,8 +225,8 @@ def check_op_errors(ctx, h):
     the disconnect."""
     for o in h.obs:
         if o.kind == 'exc' and o.exc not in ALLOWED_EXC.get(o.op[0], ()):
-            if h.conn.send_failed and o.exc in ('LostConnection', 'OSError', 'Exception'):
-                continue
+            if h.conn.send_failed and o.op[0] == 'close' and o.exc == 'WebSocketDisconnected':
+                continue   # the close event itself could not be sent: connection lost
             ctx.violate('ws.op_error', '%s raised %s: %s' % (o.op[0], o.exc, o.extra), op=o.op[0])
             return
     for e in h.loop.errors:
